@@ -647,3 +647,99 @@ fn report(s: &Arc<Sched>) -> SchedReport {
         final_status: g.status.clone(),
     }
 }
+
+// ---------------------------------------------------------------------------------------------
+// Free-running (OS scheduled) parallel runs under a passive observer.
+//
+// A real-thread run of the parallel solver in which a worker dies (panic) leaves the other workers
+// asleep for ever: maximize() never returns and the check would hang. The passive observer turns that
+// into a terminating run without owning the schedule: when a worker exits by panic (or, as a last
+// resort, when no hook event has been seen for 30 s) every other worker unwinds at its next hook and
+// the sleepers are woken up, so that maximize() ends by propagating the panic.
+// ---------------------------------------------------------------------------------------------
+struct FreeState {
+    monitor: Option<usize>,
+    release: bool,
+    worker_panicked: bool,
+    watchdog_fired: bool,
+    last_event: std::time::Instant,
+    done: bool,
+}
+#[derive(Clone, Copy, Debug, Default)]
+pub struct FreeReport {
+    pub worker_panicked: bool,
+    pub watchdog_fired: bool,
+}
+fn kick(addr: Option<usize>) {
+    if let Some(a) = addr {
+        // SAFETY: see Sched::release_all
+        let cv = unsafe { &*(a as *const parking_lot::Condvar) };
+        cv.notify_all();
+    }
+}
+pub fn with_free_run<R>(f: impl FnMut() -> R) -> (R, FreeReport) {
+    let mut f = f;
+    let _guard = RUN_LOCK.lock().unwrap_or_else(|e| e.into_inner());
+    let st = Arc::new(Mutex::new(FreeState { monitor: None, release: false, worker_panicked: false, watchdog_fired: false, last_event: std::time::Instant::now(), done: false }));
+    let cb_st = st.clone();
+    verif_hooks::set_callback(Some(Arc::new(move |e| {
+        let mut g = cb_st.lock().unwrap_or_else(|e| e.into_inner());
+        g.last_event = std::time::Instant::now();
+        match e {
+            Event::Monitor(a) => g.monitor = Some(a),
+            Event::WorkerExit { panicking: true, .. } => {
+                if !g.release {
+                    g.worker_panicked = true;
+                    g.release = true;
+                }
+                let m = g.monitor;
+                drop(g);
+                kick(m);
+                return;
+            }
+            _ => {}
+        }
+        if g.release {
+            let unwinding_event = matches!(e, Event::CriticalExit(_) | Event::WorkerExit { .. });
+            let m = g.monitor;
+            drop(g);
+            kick(m);
+            if !unwinding_event && !std::thread::panicking() {
+                panic!("verif: real-thread run abandoned (a worker crashed or the watchdog expired)");
+            }
+        }
+    })));
+    let wd_st = st.clone();
+    let (done_tx, done_rx) = std::sync::mpsc::channel::<()>();
+    let wd = std::thread::spawn(move || loop {
+        // returns at once when the run is over (the sender is dropped)
+        if !matches!(done_rx.recv_timeout(Duration::from_millis(50)), Err(std::sync::mpsc::RecvTimeoutError::Timeout)) {
+            return;
+        }
+        let mut g = wd_st.lock().unwrap_or_else(|e| e.into_inner());
+        if g.done {
+            return;
+        }
+        if g.release {
+            // keep waking sleepers up until the run is over (a worker may park after the first kick)
+            let m = g.monitor;
+            drop(g);
+            kick(m);
+            continue;
+        }
+        if g.last_event.elapsed() > Duration::from_secs(30) {
+            g.watchdog_fired = true;
+            g.release = true;
+        }
+    });
+    let r = f();
+    let rep = {
+        let mut g = st.lock().unwrap_or_else(|e| e.into_inner());
+        g.done = true;
+        FreeReport { worker_panicked: g.worker_panicked, watchdog_fired: g.watchdog_fired }
+    };
+    drop(done_tx);
+    let _ = wd.join();
+    verif_hooks::set_callback(None);
+    (r, rep)
+}
